@@ -453,10 +453,120 @@ def _is_count(fn, e, depth=0, prog=None):
     return False
 
 
+# ---------------------------------------------------------------- R-C03-5
+def _scan_extent(f):
+    """For a counting function over (pointer, length): how many elements does it look at?
+    Returns ("len", lenparam) when exactly `length` elements starting at the pointer are examined,
+    ("wrong", text) for a recognised scan of a different extent, (None, why) otherwise."""
+    ptrs = [p for p in f.params if "*" in (p.get("t") or "")]
+    ints = [p for p in f.params if p.get("w") and (p.get("t") or "") in ("size_t", "unsigned long", "unsigned int", "int",
+                                                                         "unsigned char", "unsigned", "long")]
+    if len(ptrs) != 1 or not ints:
+        return None, "not a (pointer, length) function"
+    P = ptrs[0]["d"]
+    # aliases of the pointer: locals initialised from it (with a cast), possibly advanced
+    alias = {P}
+    for v in f.walk():
+        if v.get("k") == "VarDecl" and v.get("c"):
+            i = strip_all(v["c"][0])
+            while i is not None and i.get("k") in ("CStyleCastExpr", "CXXStaticCastExpr", "CXXReinterpretCastExpr", "ImplicitCastExpr") and i.get("c"):
+                i = strip_all(i["c"][0])
+            if i is not None and i.get("k") == "DeclRefExpr" and i.get("d") in alias:
+                alias.add(v["d"])
+    loops = [n for n in f.walk() if n.get("k") in ("WhileStmt", "ForStmt")]
+    if len(loops) != 1:
+        return None, "%d loops" % len(loops)
+    lp = loops[0]
+    parts = lp["parts"]
+    cond = strip_all(lp["c"][parts["cond"]]) if "cond" in parts else None
+    body = lp["c"][parts["body"]]
+    if cond is None:
+        return None, "no loop condition"
+
+    def is_param(e, ps):
+        e = strip_all(e)
+        return e is not None and e.get("k") == "DeclRefExpr" and e.get("d") in [p["d"] for p in ps]
+    # (a) while (len--)   [optionally  > 0 / != 0]
+    c = cond
+    if c.get("k") == "BinaryOperator" and c.get("op") in (">", "!=") and folded(c["c"][1]) == 0:
+        c = strip_all(c["c"][0])
+    if c.get("k") == "UnaryOperator" and c.get("op") == "--" and c.get("postfix") and is_param(c["c"][0], ints):
+        L = strip_all(c["c"][0])
+        # one element per pass: exactly one advance of the pointer alias in the body, no other change of len
+        adv = [x for x in walk(body) if x.get("k") == "UnaryOperator" and x.get("op") == "++" and
+               (strip_all(x["c"][0]) or {}).get("d") in alias]
+        other = [x for x in walk(body) if x.get("k") in ("UnaryOperator", "BinaryOperator", "CompoundAssignOperator") and
+                 x.get("op") in ("++", "--", "=", "+=", "-=") and (strip_all(x["c"][0]) or {}).get("d") == L.get("d")]
+        if len(adv) == 1 and not other:
+            return "len", L.get("n")
+        return None, "pointer and length do not move together"
+    # (b) for (i = 0; i < len; ++i)  reading p[i]
+    if lp["k"] == "ForStmt" and cond.get("k") == "BinaryOperator" and cond.get("op") in ("<", "<=", "!="):
+        iv = strip_all(cond["c"][0])
+        lim = strip_all(cond["c"][1])
+        init0 = None
+        if "init" in parts:
+            for x in walk(lp["c"][parts["init"]]):
+                if x.get("k") == "VarDecl" and x.get("c") and iv is not None and x.get("d") == iv.get("d"):
+                    init0 = folded(x["c"][0])
+                if x.get("k") == "BinaryOperator" and x.get("op") == "=" and iv is not None and \
+                        (strip_all(x["c"][0]) or {}).get("d") == iv.get("d"):
+                    init0 = folded(x["c"][1])
+        inc = strip_all(lp["c"][parts["inc"]]) if "inc" in parts else None
+        steps_one = inc is not None and inc.get("k") == "UnaryOperator" and inc.get("op") == "++" and \
+            iv is not None and (strip_all(inc["c"][0]) or {}).get("d") == iv.get("d")
+        if iv is not None and iv.get("k") == "DeclRefExpr" and iv.get("d") not in alias and is_param(lim, ints) and steps_one:
+            reads = [x for x in walk(body) if x.get("k") == "ArraySubscriptExpr" and
+                     (strip_all(x["c"][0]) or {}).get("d") in alias and (strip_all(x["c"][1]) or {}).get("d") == iv.get("d")]
+            if reads and init0 == 0:
+                if cond["op"] in ("<", "!="):
+                    return "len", lim.get("n")
+                return "wrong", "indices 0..%s inclusive are examined: one element more than the %s the line holds" % (lim.get("n"), lim.get("n"))
+            if reads and init0 is not None:
+                return "wrong", "the scan starts at index %d" % init0
+        # (c) for (; p != end; ++p) with end = p0 + len
+        if iv is not None and iv.get("k") == "DeclRefExpr" and iv.get("d") in alias and steps_one and \
+                lim is not None and lim.get("k") == "DeclRefExpr" and cond["op"] in ("!=", "<"):
+            for v in f.walk():
+                if v.get("k") == "VarDecl" and v.get("d") == lim.get("d") and v.get("c"):
+                    e = strip_all(v["c"][0])
+                    if e is not None and e.get("k") == "BinaryOperator" and e.get("op") == "+" and \
+                            (strip_all(e["c"][0]) or {}).get("d") in alias and is_param(e["c"][1], ints):
+                        return "len", strip_all(e["c"][1]).get("n")
+                    if e is not None and e.get("k") == "BinaryOperator" and e.get("op") == "+":
+                        return "wrong", "the end pointer is `%s`" % show(e)
+    return None, "loop form not recognised"
+
+
+def rule_count_extent(prog, fixture=False):
+    r = RuleResult("R-C03-5", "the function that counts loop tokens for the indentation examines exactly the bytes "
+                   "of the line it is given (length many, starting at the pointer)", floor=0 if fixture else 1)
+    seen = set()
+    for fn in prog.fn("decode_line", required=not fixture):
+        for n in fn.walk():
+            if n.get("k") != "CallExpr":
+                continue
+            for t in prog.call_targets(fn, n):
+                if t.uid in seen or not _counting_function(t):
+                    continue
+                seen.add(t.uid)
+                kind, what = _scan_extent(t)
+                key = "%s::%s::extent" % (t.relfile(), t.qn)
+                if kind is None:
+                    r.undecided.append("%s: %s" % (t.qn, what))
+                elif kind == "len":
+                    r.add(key, "%s:%d" % (t.relfile(), t.line), True, "examines exactly `%s` elements" % what)
+                else:
+                    r.add(key, "%s:%d" % (t.relfile(), t.line), False,
+                          "%s: a byte that is not part of the line (left over in the buffer from an earlier, longer "
+                          "line) can be counted as a FOR/NEXT/REPEAT/UNTIL token and shift the indentation" % what)
+    return r
+
+
 def run(ctx):
     prog = ctx.prog("basic", "N")
     root = ctx.root or facts.REPO
-    return [rule_line_number(prog, root), rule_input_independence(prog), rule_indentation(prog)]
+    return [rule_line_number(prog, root), rule_input_independence(prog), rule_indentation(prog), rule_count_extent(prog)]
 
 
 def _fx_line(prog, fixture=True):
